@@ -336,7 +336,11 @@ def run(repo: Repo, chk: Check, thorough: bool = False) -> None:
         raise AnalysisError('R08.10: publish_string is no longer called from the reST parse_docstring')
     restored = False
     for t in enclosing_trys(pubs[0], rp.node):
-        if any(isinstance(x, ast.Attribute) and x.attr == '_roles' for st in t.finalbody for x in ast.walk(st)):
+        fin_calls = [c for st in t.finalbody for c in ast.walk(st) if isinstance(c, ast.Call) and isinstance(c.func, ast.Attribute) and
+                     isinstance(c.func.value, ast.Attribute) and c.func.value.attr == '_roles']
+        reassigned = any(isinstance(st, ast.Assign) and any(isinstance(tg, ast.Attribute) and tg.attr == '_roles' for tg in st.targets) for st in t.finalbody)
+        # putting the saved entries back is not enough: what the docstring ADDED has to go too (clear() then update(), or a plain re-assignment)
+        if reassigned or ({call_name(c) for c in fin_calls} >= {'clear', 'update'}):
             restored = True
     chk.ob('R08.10', 'epydoc.markup.restructuredtext.parse_docstring :: the global role table of docutils is restored', restored,
            'saved before publish_string, put back in a finally block' if restored else
